@@ -87,6 +87,10 @@ def vivifying_lookups(repo, rep):
 
 
 def run(repo, rep, tier):
+    rep.rule("R-C18-9", "no `to_*` writer and no SpecDataset method consumes the construction-time copies of the efth accessor's attributes (each consumer of the "
+                        "snapshot of known finding F-C18-b is its own finding)")
+    from .round7 import writer_snapshot_reads
+    writer_snapshot_reads(repo, rep, "R-C18-9")
     rep.rule("R-C18-7", "(shared with C07) nothing in the Python wrapper of the native routine outlives a call: no function-static or file-scope object in specpart_wrap.c other than the method / module tables")
     from . import cnative as _cn
     _cn.wrapper_state(_cn.wrap(repo), rep, "R-C18-7")
